@@ -25,10 +25,27 @@ package bcd
 //@   ensures total:   err == nil <==> (forall k int :: 0 <= k && k < len(bytes) ==> bcd.hi(bytes[k]) <= 9 && bcd.lo(bytes[k]) <= 9)
 //@   ensures length:  err == nil ==> len(res) == 2 * len(bytes)
 //@   ensures digits:  err == nil ==> (forall k int :: 0 <= k && k < len(bytes) ==> res[2*k] == 48 + bcd.hi(bytes[k]) && res[2*k+1] == 48 + bcd.lo(bytes[k]))
+//@   ensures chars:   err == nil ==> (forall i int :: 0 <= i && i < len(res) ==> res[i] == 48 + (i % 2 == 0 ? bcd.hi(bytes[i/2]) : bcd.lo(bytes[i/2])))
 //@   ensures failure: err != nil ==> len(res) == 0
 //@   loop 1
 //@     invariant idx:    -1 <= rangeindex && rangeindex < len(bytes)
 //@     invariant valid:  forall k int :: 0 <= k && k <= rangeindex ==> bcd.hi(bytes[k]) <= 9 && bcd.lo(bytes[k]) <= 9
 //@     invariant length: s.len == 2 * (rangeindex + 1)
-//@     invariant chars:  forall k int :: 0 <= k && k <= rangeindex ==> s.chars[2*k] == 48 + bcd.hi(bytes[k]) && s.chars[2*k+1] == 48 + bcd.lo(bytes[k])
+//@     invariant chars:  forall i int :: 0 <= i && i < s.len ==> s.chars[i] == 48 + (i % 2 == 0 ? bcd.hi(bytes[i/2]) : bcd.lo(bytes[i/2]))
 //@     decreases len(bytes) - rangeindex
+
+// Round-trip lemmas (property C12), proved from the two contracts above.
+
+//@ func lemmaDecodeEncode
+//@   returns (r, ok)
+//@   ensures total:  ok <==> (forall k int :: 0 <= k && k < len(s) ==> bcd.isdigit(s[k]))
+//@   ensures length: ok ==> len(r) == len(s) + bcd.par(s)
+//@   ensures pad:    ok && bcd.par(s) == 1 ==> r[0] == 48
+//@   ensures same:   ok ==> (forall j int :: 0 <= j && 2*j < len(r) ==> r[2*j] == 48 + bcd.dig(s, 2*j - bcd.par(s)) && r[2*j+1] == 48 + bcd.dig(s, 2*j + 1 - bcd.par(s)))
+
+//@ func lemmaEncodeDecode
+//@   returns (e, ok)
+//@   ensures total:  ok <==> (forall k int :: 0 <= k && k < len(b) ==> bcd.hi(b[k]) <= 9 && bcd.lo(b[k]) <= 9)
+//@   ensures length: ok ==> len(e) == len(b)
+//@   ensures same:   ok ==> (forall k int :: 0 <= k && k < len(b) ==> e[k] == b[k])
+//@   ensures fresh:  ok ==> fresh(e)
